@@ -335,7 +335,7 @@ func addSockaddrRecord(sockaddr *auparse.AuditMessage, event *Event) {
 	}
 
 	for k, v := range data {
-		event.Data["socket_"+k] = v
+		setEventData("socket_"+k, v, sockaddr, event)
 	}
 
 	switch syscall {
@@ -409,7 +409,7 @@ func addExecveRecord(execve *auparse.AuditMessage, event *Event) {
 			errors.New("argc key not found in EXECVE message"))
 		return
 	}
-	event.Data["argc"] = argc
+	setEventData("argc", argc, execve, event)
 
 	count, err := strconv.ParseUint(argc, 10, 32)
 	if err != nil {
@@ -433,6 +433,17 @@ func addExecveRecord(execve *auparse.AuditMessage, event *Event) {
 	}
 
 	event.Process.Args = args
+
+	// Keep the fields that are neither argc nor one of the arguments above.
+	for k, v := range data {
+		if k == "argc" {
+			continue
+		}
+		if i, err := strconv.Atoi(strings.TrimPrefix(k, "a")); err == nil && i >= 0 && i < len(args) && k == "a"+strconv.Itoa(i) {
+			continue
+		}
+		setEventData(k, v, execve, event)
+	}
 }
 
 func addFieldsToEventData(msg *auparse.AuditMessage, event *Event) {
@@ -444,13 +455,19 @@ func addFieldsToEventData(msg *auparse.AuditMessage, event *Event) {
 	}
 
 	for k, v := range data {
-		if _, found := event.Data[k]; found {
-			event.Warnings = append(event.Warnings, fmt.Errorf(
-				"duplicate key (%v) from %v message", k, msg.RecordType))
-			continue
-		}
-		event.Data[k] = v
+		setEventData(k, v, msg, event)
 	}
+}
+
+// setEventData adds a field of msg to the event's data. A key that is already
+// present keeps its value and a warning is added, so no value is lost silently.
+func setEventData(key, value string, msg *auparse.AuditMessage, event *Event) {
+	if _, found := event.Data[key]; found {
+		event.Warnings = append(event.Warnings, fmt.Errorf(
+			"duplicate key (%v) from %v message", key, msg.RecordType))
+		return
+	}
+	event.Data[key] = value
 }
 
 func applyNormalization(event *Event) {
